@@ -1548,6 +1548,11 @@ impl Compiler {
         let rhs_node = ctx.node_with_span(expression);
         let rhs_is_temp_tuple = matches!(rhs_node.node, Node::TempTuple(_));
 
+        // The values of a temporary tuple are accessed with signed 8 bit indices
+        if rhs_is_temp_tuple && targets.len() > i8::MAX as usize + 1 {
+            return self.error(ErrorKind::TooManyAssignmentTargets(targets.len()));
+        }
+
         let result = self.assign_result_register(ctx)?;
         let stack_count = self.stack_count();
         let rhs = self.compile_node(expression, ctx.with_any_register())?;
